@@ -6,12 +6,15 @@ import (
 	"fmt"
 	"os"
 	"runtime"
+	"runtime/debug"
+	"runtime/pprof"
 	"sort"
 	"strings"
 	"time"
 )
 
 func main() {
+	debug.SetGCPercent(400)
 	if len(os.Args) < 2 {
 		fmt.Fprintln(os.Stderr, "usage: symgo run|check|selftest ...")
 		os.Exit(2)
@@ -60,8 +63,14 @@ func cmdRun(args []string) {
 	params := fs.String("params", "", "harness parameters k=v,k=v")
 	timeLimit := fs.Duration("time", 0, "wall-clock limit")
 	verbose := fs.Bool("v", false, "verbose")
-	solver := fs.String("solver", "z3", "z3|z3-new|cvc5")
+	solver := fs.String("solver", "z3-new", "z3|z3-new|cvc5")
+	cpuprof := fs.String("cpuprofile", "", "write cpu profile")
 	fs.Parse(args)
+	if *cpuprof != "" {
+		f, _ := os.Create(*cpuprof)
+		pprof.StartCPUProfile(f)
+		defer pprof.StopCPUProfile()
+	}
 	t0 := time.Now()
 	eng, err := LoadEngine(*repo, *hdir)
 	if err != nil {
@@ -89,12 +98,12 @@ func cmdRun(args []string) {
 
 func solverKindOf(s string) SolverKind {
 	switch s {
-	case "z3-new":
-		return SolverZ3New
+	case "z3", "z3-old":
+		return SolverZ3
 	case "cvc5":
 		return SolverCVC5
 	}
-	return SolverZ3
+	return SolverZ3New
 }
 
 func printSummary(ex *Explorer, d time.Duration, verbose bool) {
@@ -158,5 +167,4 @@ func printSummary(ex *Explorer, d time.Duration, verbose bool) {
 	}
 }
 
-func cmdCheck(args []string)    { fmt.Println("check: not built yet"); os.Exit(2) }
 func cmdSelftest(args []string) { fmt.Println("selftest: not built yet"); os.Exit(2) }
